@@ -27,6 +27,8 @@ def snapshot(x):
     return (type(x).__name__, [snapshot(v) for v in x])
   if hasattr(x, '__dataclass_fields__'):
     return ('dc', type(x).__name__, [(f, snapshot(getattr(x, f))) for f in x.__dataclass_fields__])
+  if hasattr(x, '__next__'):
+    return ('one-shot-iterator', type(x).__name__)
   try:
     a = np.asarray(x)
     return ('arr', a.shape, str(a.dtype), a.tobytes())
@@ -59,6 +61,7 @@ def algorithms():
       'agnostic': lambda: agnostic_fed_avg.agnostic_federated_averaging(
           pel, sgd, mom, hp, php, [0.5, 0.5], 0.1, domain_window_size=2, init_domain_window=[1., 1.]),
       'apfl': lambda: apfl.adaptive_personalized_federated_learning(grad_fn, sgd, mom, hp, 0.5),
+      'hyp_cluster': lambda: hyp_cluster.hyp_cluster(pel, sgd, mom, php, hp),
   }
 
 
@@ -66,11 +69,17 @@ def check_pure(inp):
   name, rounds = inp['alg'], inp['rounds']
   alg = algorithms()[name]()
   params = {'w': jnp.asarray(np.array([0.3, -0.2], np.float32)), 'b': jnp.asarray(np.float32(0.1))}
-  state = alg.init(params)
+  if name == 'hyp_cluster':
+    state = alg.init([params, jax.tree_util.tree_map(lambda x: x + 1.0, params)])
+  else:
+    state = alg.init(params)
   history = []
   for r, sizes in enumerate(rounds):
     clients = make_clients(r, sizes)
     before = snapshot(state)
+    if 'one-shot-iterator' in repr(before):
+      return (f'{name}: the state entering round {r + 1} holds a single-use iterator (map / generator / zip object): reading '
+              'the state consumes it, so the round is not a function of the state value')
     saved = pickle.loads(pickle.dumps(jax.tree_util.tree_map(np.asarray, state))) if name != 'apfl' else None
     new1, d1 = alg.apply(state, clients)
     if snapshot(state) != before:
@@ -89,7 +98,7 @@ def check_pure(inp):
 
 
 def sweep_pure(tier, seed):
-  for name in ('fed_avg', 'fed_prox', 'mime', 'mime_lite', 'agnostic', 'apfl'):
+  for name in ('fed_avg', 'fed_prox', 'mime', 'mime_lite', 'agnostic', 'apfl', 'hyp_cluster'):
     yield dict(alg=name, rounds=[[3, 2], [2, 0, 4], [3, 2]])
   for a in ('uniform', 'arithmetic', 'rotated', 'drive', 'terngrad'):
     yield dict(alg='agg:' + a, rounds=4)
